@@ -4,3 +4,4 @@ import NjectProps.C06
 import NjectProps.C06b
 import NjectProps.C03C15
 import NjectProps.C13
+import NjectProps.Concurrency
